@@ -8,5 +8,6 @@
 package main
 
 //@ func (h *handler) getPartitionLog
+//@   exact_strings
 //@   at Do#1 before assert [C22.loginit_key] arg0 == c22ResourceID(topic, fmtd(partition))
 //@   at Do#1 after stop [C22]
